@@ -219,12 +219,13 @@ def eval_offsets(ctx, case):
     from myst_parser.parsers.options import TokenizeError, options_to_items
 
     text, lo, co = case["text"], case["lo"], case["co"]
+    PROG.begin(2 * len(text) + 10)
     try:
         options_to_items(text)
         return
     except TokenizeError as e0:
         base = e0
-    except Exception:  # noqa: BLE001
+    except (Exception, core.StepBudgetExceeded):  # noqa: BLE001  (judged by run_one on the same text)
         return
     try:
         options_to_items(text, lo, co)
@@ -253,8 +254,12 @@ def eval_directive(ctx, case):
         exp_d = dict(exp)
         if style == "colon" and (len(block.splitlines()) != len(exp) or any(not l or l[0] in " #" for l in block.splitlines())):
             continue  # only one-line-per-entry blocks have a ':' spelling
+        PROG.begin(len(content) + 10)
         try:
             r = parse_directive_text(TestDirective, "", content)
+        except core.StepBudgetExceeded:
+            ctx.violation("termination:step-budget", "scanner exceeded its step budget when reached through parse_directive_text", case)
+            continue
         except Exception as e:  # noqa: BLE001
             ctx.violation(f"directive-path-raises:{type(e).__name__}", f"{e!r}", case)
             continue
@@ -390,7 +395,7 @@ def run_shard(ctx):
         ctx.case(("block", t), ":" in t)
         if i < 2:
             ctx.sample({"kind": "block", "text": t, "outcome": tag})
-        if i % 5 == 0:
+        if i % 5 == 0 and tag not in ("budget", "exc"):
             eval_offsets(ctx, {"kind": "offsets", "text": t, "lo": R.randint(0, 50), "co": R.randint(0, 9)})
         if tag == "agree" and not any(l.strip() == "" and l for l in t.splitlines()) and not (set(t) & set("\r\ufeff\x0b\x0c\x1c\x1d\x1e\x85\u2028\u2029")) and not any(l.startswith("---") for l in t.splitlines()):
             eval_directive(ctx, {"kind": "directive", "block": t.rstrip("\n")})
